@@ -229,6 +229,16 @@ def transform_expression(
     return formatted_expression, symbolic_vars
 
 
+def _symbols_namespace(symbolic_vars: Optional[Dict[str, Symbol]]) -> Dict[str, Symbol]:
+    """The names of the fluents' symbols - given to the sympy parser so that a fluent called e.g. "limit", "gamma",
+    "max" or "pi" is read as that fluent and not as the function / constant sympy knows under the same name.
+
+    :param symbolic_vars: the mapping between the PDDL fluents and their symbols.
+    :return: the mapping between the symbols' names and the symbols.
+    """
+    return {str(symbol): symbol for symbol in (symbolic_vars or {}).values()}
+
+
 def simplify_complex_numeric_expression(
     complex_numeric_expression: str, decimal_digits: int = DEFAULT_DECIMAL_DIGITS
 ) -> str:
@@ -241,7 +251,9 @@ def simplify_complex_numeric_expression(
     :return: the simplified expression in PDDL format.
     """
     left_part_str, symbolic_vars = transform_expression(complex_numeric_expression)
-    left_part_expr = parse_expr(left_part_str)
+    left_part_expr = parse_expr(
+        left_part_str, local_dict=_symbols_namespace(symbolic_vars)
+    )
     # expanding so that a common numeric factor (e.g., 0.5 * (...)) is not rounded on its own.
     simplified_expression = expand(simplify(left_part_expr))
     return convert_expr_to_pddl(
@@ -263,8 +275,13 @@ def simplify_equality(
     transformed_right_expr, symbolic_vars = transform_expression(
         right_expr, symbolic_vars
     )
-    transformed_left_expr = parse_expr(transformed_left_expr, evaluate=False)
-    transformed_right_expr = parse_expr(transformed_right_expr, evaluate=False)
+    namespace = _symbols_namespace(symbolic_vars)
+    transformed_left_expr = parse_expr(
+        transformed_left_expr, local_dict=namespace, evaluate=False
+    )
+    transformed_right_expr = parse_expr(
+        transformed_right_expr, local_dict=namespace, evaluate=False
+    )
     difference = expand(transformed_left_expr - transformed_right_expr)
     if all(
         abs(float(coefficient)) < FLOAT_NOISE_THRESHOLD
@@ -327,8 +344,11 @@ def simplify_inequality(
     transformed_right_str, symbolic_vars = transform_expression(
         right_side_expression, symbolic_vars
     )
-    left_expr = parse_expr(transformed_left_str, evaluate=False)
-    right_expr = parse_expr(transformed_right_str, evaluate=False)
+    namespace = _symbols_namespace(symbolic_vars)
+    left_expr = parse_expr(transformed_left_str, local_dict=namespace, evaluate=False)
+    right_expr = parse_expr(
+        transformed_right_str, local_dict=namespace, evaluate=False
+    )
 
     for assumption_str in assumptions:
         # Parse the strings as sympy expressions
@@ -336,8 +356,9 @@ def simplify_inequality(
             assumption_str, symbolic_vars
         )
         lhs, rhs = assumption_expression.split("=")
-        lhs = simplify(sympify(lhs))
-        rhs = simplify(sympify(rhs))
+        namespace = _symbols_namespace(symbolic_vars)
+        lhs = simplify(sympify(lhs, locals=namespace))
+        rhs = simplify(sympify(rhs, locals=namespace))
         # substituting a single variable - replacing a compound pattern (e.g., x + y) inside the unevaluated
         # expressions matches only some of its occurrences and may change the meaning of the inequality.
         eliminated_variables = sorted(lhs.free_symbols, key=str)
